@@ -5,6 +5,7 @@ CONSTANTS
   Steps = 2
   ClassSel = "three"
   FirstSel = "four"
+  CollectMode = "bound"
 INIT Init
 NEXT Next
 INVARIANT Explained
